@@ -56,7 +56,7 @@ func c04FinalReads(d *vc.Driver, c *vc.C04) {
 			c.Quiesce()
 		}
 	}
-	d.CheckAllReplicas()
+	c.CheckAllReplicas()
 }
 
 func c04Case(root *vw.Rng, ci int, tr *vw.Trace) {
@@ -96,7 +96,7 @@ func c04Case(root *vw.Rng, ci int, tr *vw.Trace) {
 			n := c.Heal(8)
 			healed = n
 			c.CheckRedundancy()
-			d.CheckAllReplicas()
+			c.CheckAllReplicas()
 		}
 	}
 	c04FinalReads(d, c)
@@ -168,7 +168,7 @@ func c04DirectedRetry(root *vw.Rng, tr *vw.Trace, id string) {
 	c.Detect()
 	n := c.Heal(6)
 	c.CheckRedundancy()
-	d.CheckAllReplicas()
+	c.CheckAllReplicas()
 	c04FinalReads(d, c)
 	c04Report(d, id)
 	c04Stats(d, c)
@@ -202,7 +202,7 @@ func c04DirectedCrashPull(root *vw.Rng, tr *vw.Trace, id string) {
 	c.Quiesce()
 	n := c.Heal(6)
 	c.CheckRedundancy()
-	d.CheckAllReplicas()
+	c.CheckAllReplicas()
 	d.StartWrite(0, 0, 50, 100)
 	c.Quiesce()
 	c04FinalReads(d, c)
@@ -238,6 +238,7 @@ func c04DirectedHopeless(root *vw.Rng, tr *vw.Trace, id string) {
 			Detail: map[string]interface{}{"entries": len(det.Entries), "unrecoverable": len(det.Unrecoverable)}})
 	}
 	// a caller insisting on a repair with every host bad is refused too
+	d.Cl.SetEligible(d.Cl.Cur, nil) // the spare servers have room
 	d.StartReplicate(0, 0, hosts)
 	c.Quiesce()
 	c.Heal(3)
@@ -246,7 +247,7 @@ func c04DirectedHopeless(root *vw.Rng, tr *vw.Trace, id string) {
 		d.Bads = append(d.Bads, vc.Bad{Sig: "hopeless-tract-durable-changed", What: "every host of the tract is bad, yet its durable record changed",
 			Detail: map[string]interface{}{"before": fmt.Sprint(before), "after": fmt.Sprint(after)}})
 	}
-	d.CheckAllReplicas()
+	c.CheckAllReplicas()
 	c04FinalReads(d, c)
 	c04Report(d, id)
 	c04Stats(d, c)
@@ -278,7 +279,7 @@ func c04DirectedAbandon(root *vw.Rng, tr *vw.Trace, id string) {
 	c.Quiesce()
 	n := c.Heal(8)
 	c.CheckRedundancy()
-	d.CheckAllReplicas()
+	c.CheckAllReplicas()
 	c04FinalReads(d, c)
 	c04Report(d, id)
 	c04Stats(d, c)
